@@ -105,7 +105,12 @@ class EnumRNG:
                 raise ValueError("a cannot be empty unless no samples are taken")
             return a[self._decide([1.0 / len(a)] * len(a))]
         k = int(size)
-        assert not replace
+        if replace:
+            # k independent uniform picks (numpy: an empty result for k == 0, an error for an empty population with k > 0)
+            if k > 0 and len(a) == 0:
+                raise ValueError("a cannot be empty unless no samples are taken")
+            picks = [a[self._decide([1.0 / len(a)] * len(a))] for _ in range(k)]
+            return np.array(picks, dtype=np.asarray(a).dtype if len(a) else float)
         if k > len(a):
             raise ValueError("Cannot take a larger sample than population when replace is False")
         combos = list(itertools.combinations(a, k))
